@@ -48,8 +48,8 @@ THOROUGH_BOXES = {'fcc-primitive': [4.0, 4.0, 4.0, 60.0, 60.0, 60.0], 'hexagonal
 
 def units(tier):
     us = []
-    if tier != 'quick':
-        BOXES.update(THOROUGH_BOXES)
+    # (the fcc and hexagonal boxes were tried in the thorough tier: with uvw=1 their reduced basis is not within the search range,
+    #  i.e. outside the property's quantifier; they are not used)
     for m in ('tools', 'laue'):
         for b in list(BOXES):
             us.append({'name': '%s/%s' % (m, b), 'module': m, 'box': b, 'cost': 5})
